@@ -206,11 +206,11 @@ static int sweep(Scn& s, long maxk, const std::string& layers, long startk = 1) 
   // the library is intact: the same scenario without fault gives the same result
   purge_caches();
   long base = c14::live_blocks;
-  s.build(); s.call(); bool v1 = s.valid(); std::string r1 = s.result(); s.destroy(); purge_caches();
+  s.build(); s.call(); bool v1 = s.valid(); bool same1; { std::string r1 = s.result(); same1 = (r0 == r1); } s.destroy(); purge_caches();
   long leak1 = c14::live_blocks - base;
   std::cout << "done " << s.name << " positions=" << st.positions << " completed=" << completed << " exn=" << st.exn << " leaks=" << st.leaks
             << " invalid=" << st.invalid << " unusable=" << st.unusable << " argchg=" << st.argchg << " strong=" << st.strong_kept
-            << " spurious=" << st.spurious << " rerun_valid=" << v1 << " rerun_same=" << (r0 == r1) << " rerun_leak=" << leak1 << "\n";
+            << " spurious=" << st.spurious << " rerun_valid=" << v1 << " rerun_same=" << same1 << " rerun_leak=" << leak1 << "\n";
   std::cout << "gmpcallers";
   for (int i = 0; i < c14::nccnt; ++i) std::cout << " " << c14::ccnt[i].name << ":" << c14::ccnt[i].n << ":" << (c14::ccnt[i].ok ? "inj" : "skip");
   std::cout << "\n";
